@@ -19,6 +19,9 @@ def main():
         env["PENDULUM_VERIF_REEXEC"] = "1"
         env["PYTHONDONTWRITEBYTECODE"] = "1"
         env.pop("TZ", None)
+        if env.get("VERIF_REPO"):
+            # self-tests only: run against a scratch checkout instead of /repo
+            env["PYTHONPATH"] = os.path.join(os.path.realpath(env["VERIF_REPO"]), "src") + os.pathsep + env.get("PYTHONPATH", "")
         os.execve(sys.executable, [sys.executable, os.path.abspath(__file__)] + sys.argv[1:], env)
     sys.path.insert(0, ROOT)
     from sim import driver
